@@ -4,9 +4,9 @@ import json
 import random
 import sys
 
-from common import (Build, MachineryError, Verdict, graph_paths, make_cfg,
-                    run_children, run_tlc, seed, shard, split_behaviours,
-                    tla_bool, NCPU)
+from common import (Build, MachineryError, Verdict, graph_paths, join_obs,
+                    make_cfg, run_children, run_tlc, seed, shard,
+                    split_behaviours, tla_bool, NCPU)
 
 INV = {
     'C02': ['TypeOK', 'ImpliedIsReach', 'SroSetIsReach', 'DepsExact',
@@ -158,10 +158,11 @@ def main(pid, tier):
                 'IsIface': '<-' + isif, 'DefChoices': '<-' + defc,
                 'WithGet': tla_bool(wg), 'RootExplicit': tla_bool(rootx),
                 'PinnedC03': 'FALSE', 'PinnedC15': 'FALSE'},
-                invariants=INV[pid], view='View', constraint='Bound',
-                action_constraint='Emit')
+                invariants=INV[pid] + ['DumpObs'], view='View',
+                constraint='Bound', action_constraint='Emit')
             res = run_tlc('MC_SpecGraph_hist', cfg, scratch=build.dir,
                           workers=1 if tier == 'quick' else None)
+            join_obs(res)
             name = 'hist N=%d MaxB=%d %s %s root_explicit=%s depth=%d' % (
                 N, maxb, isif, defc, rootx, depth)
             v.add_tlc(res, name)
@@ -176,6 +177,8 @@ def main(pid, tier):
             for recs in by_def.values():
                 root, tree, edges = graph_paths(recs)
                 for e in edges:
+                    if e['obs'] is None:
+                        continue
                     path = tree[e['_fk']] + [e]
                     steps = [{'act': x['act'], 'obs': None, 'check': False}
                              for x in path[:-1]]
@@ -197,9 +200,11 @@ def main(pid, tier):
             'IsIface': '<-' + isif, 'DefChoices': '<-' + defc,
             'WithGet': tla_bool(wg), 'RootExplicit': tla_bool(rootx),
             'PinnedC03': 'FALSE', 'PinnedC15': 'FALSE'},
-            invariants=INV[pid], view='View', action_constraint='Emit')
+            invariants=INV[pid] + ['DumpObs'], view='View',
+            action_constraint='Emit')
         res = run_tlc('MC_SpecGraph_hist', cfg, simulate=num, depth=depth,
                       seed_=seed(), scratch=build.dir)
+        join_obs(res)
         name = 'simulate N=%d depth=%d num=%d' % (N, depth, num)
         v.add_tlc(res, name)
         if res.violated:
